@@ -201,8 +201,19 @@ func callAccessors(obj interface{}) {
 	}
 	accMu.Unlock()
 	first := ""
+	tname := strings.TrimPrefix(t.String(), "*")
 	for n, i := range idx {
-		o := vh.Guard(func() { v.Method(i).Call(nil) })
+		name := tname + "." + t.Method(i).Name
+		if isDead("first:" + name) {
+			continue // a hang of this accessor is established: it has been reported once, it is not called again
+		}
+		// every accessor call runs under the patient watchdog: a spin or a deadlock inside a lazy decoder
+		// must not stall the sweep
+		o := guardPatient(func() { v.Method(i).Call(nil) })
+		if o.Timeout {
+			markDead("first:" + name)
+			panic(hangMarker + name)
+		}
 		if o.OK() {
 			continue
 		}
@@ -210,12 +221,9 @@ func callAccessors(obj interface{}) {
 			first = o.Panic
 		}
 		// a failed access must leave the object usable: the same accessor, and another one, are called
-		// again; they may fail again but must return (a lock leaked by the panic would block them)
-		name := strings.TrimPrefix(t.String(), "*") + "." + t.Method(i).Name
-		accMu.Lock()
-		seen := hangSeen[name]
-		accMu.Unlock()
-		if seen >= 3 {
+		// again; they may fail again but must return (a lock leaked by the panic would block them).
+		// A hang is established ONCE per accessor: after that the re-calls are skipped.
+		if isDead("retry:" + name) {
 			continue
 		}
 		again := []int{i}
@@ -224,9 +232,7 @@ func callAccessors(obj interface{}) {
 		}
 		for _, j := range again {
 			if guardPatient(func() { v.Method(j).Call(nil) }).Timeout {
-				accMu.Lock()
-				hangSeen[name]++
-				accMu.Unlock()
+				markDead("retry:" + name)
 				panic(hangMarker + name)
 			}
 		}
@@ -236,9 +242,13 @@ func callAccessors(obj interface{}) {
 	}
 }
 
-const hangMarker = "harness-hang:"
+// dead: hangs that have been established (and reported) in this process
+var dead = map[string]bool{}
 
-var hangSeen = map[string]int{}
+func isDead(k string) bool { accMu.Lock(); defer accMu.Unlock(); return dead[k] }
+func markDead(k string)    { accMu.Lock(); dead[k] = true; accMu.Unlock() }
+
+const hangMarker = "harness-hang:"
 
 var accMu sync.Mutex
 var accCache = map[reflect.Type][]int{}
